@@ -57,6 +57,10 @@ def curated(tier):
         add("multi_rule_vertex", cell)
         add("real_space", cell)
         add("quadrature_element", cell)
+    from vf.corpus import ZOO
+
+    for cell, fam, deg, var, disc in ZOO:
+        add("family_zoo", cell, cdeg=2 if (cell in ("triangle", "quadrilateral") and deg == 1) else 1, p={"family": fam, "degree": deg, "variant": var, "discontinuous": disc})
     for cell in ("triangle", "tetrahedron"):
         add("mini", cell)
         add("curlcurl", cell)
